@@ -94,7 +94,7 @@ def structures(tier):
     return out
 
 
-def to_spec(struct, order, pal, volts, phased, pol=1):
+def to_spec(struct, order, pal, volts, phased, pol=1, prefix_names=False):
     L = letters(pal)
     V = PALETTES[pal]["V"]
     lk = {"R": "RL", "C": "CVc", "I": "IL", "P": "PLx", "M": "MX"}
@@ -119,7 +119,13 @@ def to_spec(struct, order, pal, volts, phased, pol=1):
                 key = "ii" if l == "I" else "pwr"
                 c["pc"] = {"a": _r(a[key] * 0.5), "b": _r(a[key] * 1.5)} if n != "LA" else {"b": _r(a[key] * 0.3)}
             comps.append(c)
-    return dict(name="ord", comps=comps, phases=dict(PH2) if phased else None)
+    sp = dict(name="ord", comps=comps, phases=dict(PH2) if phased else None)
+    if prefix_names:  # source names one of which is a prefix of the other ("S1" / "S1x")
+        ren = {"S2": "S1x"}
+        for c in sp["comps"]:
+            c["n"] = ren.get(c["n"], c["n"])
+            c["p"] = [ren.get(q, q) for q in c["p"]]
+    return sp
 
 
 def energy(P, ph, phases):
@@ -223,7 +229,7 @@ def check_case(case):
     orders = linear_extensions(struct)
     ref = None
     for o in orders:
-        spec = to_spec(struct, o, case["pal"], case["volts"], case["phased"], case.get("pol", 1))
+        spec = to_spec(struct, o, case["pal"], case["volts"], case["phased"], case.get("pol", 1), case.get("prefix", False))
         s = build(spec)
         res.stats["transitions"] += len(o) + 1
         try:
@@ -271,6 +277,8 @@ def gen_cases(tier):
         for volts in pats:
             for phased, en in ((False, False), (True, True)) if tier == "quick" else ((False, False), (False, True), (True, False), (True, True)):
                 yield dict(struct={k: [v[0], list(v[1])] for k, v in st.items()}, pal=pal, volts=list(volts), phased=phased, energy=en)
+            if len(st) <= 6:
+                yield dict(struct={k: [v[0], list(v[1])] for k, v in st.items()}, pal=pal, volts=list(volts), phased=False, energy=False, prefix=True)
             if len(st) <= 5:  # phase durations edited between two analyses
                 yield dict(struct={k: [v[0], list(v[1])] for k, v in st.items()}, pal=pal, volts=list(volts), phased=True, energy=True, rephase=True)
             if "M" in st and len(st) <= 6:  # negative rails through the mux
